@@ -90,3 +90,14 @@ TEXT["C05"] = dict(
                "generated.",
     level_note="trusts std::stable_sort as reference; sentinel variants are driven with the sentinel the "
                "property requires")
+TEXT["C08"] = dict(
+    engine="differential",
+    design_ref="DESIGN.md section 4, C08",
+    technique="runtime differential monitor vs brute-force merge at every rank, exhaustive over small tuples, under ASan+UBSan",
+    level_text="For each tuple of non-empty sorted sequences every rank 0..N is split by the real "
+               "multisequence_partition and selected by multisequence_selection and compared with the "
+               "merge by (value, sequence, position): left size, order across the split, exact tie-break, "
+               "selected value and offset. All tuples of up to 3 (thorough: 4) short sequences over three "
+               "values are enumerated; random tuples cover m up to 10, lengths around powers of two and "
+               "very unequal lengths, both orders, and a value type whose order is coarser than equality.",
+    level_note="trusts the brute-force reference; sequences are non-empty as the property requires")
